@@ -1,3 +1,2 @@
 pending = {
- "C13": "claimed (part) in DESIGN.md; the check is not built yet in this commit",
 }
